@@ -600,7 +600,7 @@ class Engine:
         if isinstance(b, Rec) and b.name != "digits":
             b = b.astuple()
         if isinstance(a, Ref) or isinstance(b, Ref):
-            name = {ast.Or: "__or__", ast.BitOr: "__or__", ast.Add: "__add__", ast.Mult: "__mul__"}.get(type(op))
+            name = {ast.Or: "__or__", ast.BitOr: "__or__", ast.Add: "__add__", ast.Mult: "__mul__", ast.Sub: "__sub__", ast.BitAnd: "__and__"}.get(type(op))
             if isinstance(a, Ref) and isinstance(s.H(a), list) and isinstance(op, ast.Mult):
                 if not is_sym(b) and isinstance(b, int):
                     s = self.fork(s)
@@ -636,9 +636,16 @@ class Engine:
                 self.raise_(ex.exc, s)
                 return []
         if isinstance(a, bytes) or isinstance(b, bytes):
-            if not is_sym(a) and not is_sym(b):
+            if not is_sym(a) and not is_sym(b) and not isinstance(a, (TS, tuple)) and not isinstance(b, (TS, tuple)):
                 return [(self.py_binop(op, a, b), s)]
-            raise Unsupported("bytes op")
+            # a byte string written to the terminal with symbolic parameters: same terminal effect as its latin-1 text
+            a2 = a.decode("latin1") if isinstance(a, bytes) else a
+            b2 = b.decode("latin1") if isinstance(b, bytes) else b
+            try:
+                return [(tstr.str_binop(op, a2, b2), s)]
+            except tstr.PyRaise as ex:
+                self.raise_(ex.exc, s)
+                return []
         if isinstance(a, tuple) or isinstance(b, tuple):
             if isinstance(op, ast.Add) and isinstance(a, tuple) and isinstance(b, tuple):
                 return [(a + b, s)]
@@ -1085,6 +1092,8 @@ class Engine:
             raise Unsupported("tuple.index")
         if isinstance(recv, tuple) and name == "count":
             return [(sum(1 for x in recv if x == args[0]), s)]
+        if isinstance(recv, bytes) and name == "join" and not all(isinstance(x, bytes) for x in (args[0] if isinstance(args[0], (tuple, list)) else ())):
+            return [(tstr.concat_join(recv.decode("latin1"), [x.decode("latin1") if isinstance(x, bytes) else x for x in self.iter_concrete(args[0], s)]), s)]
         if isinstance(recv, bytes) and not any(is_sym(a) for a in args):
             return [(getattr(recv, name)(*args), s)]
         if is_sym(recv) and z3.is_string(recv):
